@@ -168,7 +168,7 @@ def body(chk):
         return z3.And(fld(ex, v, R['current']) == c, fld(ex, v, R['left']) == l)
 
     # 1. Retries::next_try
-    b = prog.find('event.rs:138:1: 138:13>::next_try')
+    b = common.find_method(prog, 'Retries', 'next_try')
 
     def claim1(ex, M, kind, r):
         if kind == 'panic':
@@ -179,13 +179,13 @@ def body(chk):
     simple(chk, 'C05.Retries::next_try', 'all 2^128 (current, left) pairs', b, lambda ex, M: [retries_v()], claim1)
 
     # 2. Retries::initial
-    b = prog.find('event.rs:138:1: 138:13>::initial')
+    b = common.find_method(prog, 'Retries', 'initial')
     n = z3.BitVec('n', 64)
     simple(chk, 'C05.Retries::initial', 'all n', b, lambda ex, M: [n],
            lambda ex, M, kind, r: is_retries(ex, M, r, bv(0), n) if kind == 'ok' else z3.BoolVal(False))
 
     # 3. RetryOptions::next_try
-    b = prog.find('basic.rs:125:1: 125:18>::next_try')
+    b = common.find_method(prog, 'RetryOptions', 'next_try')
 
     def opt_dur_same(ex, M, v, want_d, want_dur):
         v = ex.materialize(v)
@@ -229,9 +229,9 @@ def body(chk):
                     c.append(di == bv(0))
             return z3.And(*c)
         return claim
-    simple(chk, 'C05.RetryOptions::with_deadline', 'all values', prog.find('basic.rs:125:1: 125:18>::with_deadline'),
+    simple(chk, 'C05.RetryOptions::with_deadline', 'all values', common.find_method(prog, 'RetryOptions', 'with_deadline'),
            lambda ex, M: (wf(ex), [ro_v(), now])[1], deadline_claim(True))
-    simple(chk, 'C05.RetryOptions::without_deadline', 'all values', prog.find('basic.rs:125:1: 125:18>::without_deadline'),
+    simple(chk, 'C05.RetryOptions::without_deadline', 'all values', common.find_method(prog, 'RetryOptions', 'without_deadline'),
            lambda ex, M: (wf(ex), [ro_v()])[1], deadline_claim(False))
     fb = [bb for (st, m), lst in prog.by_method.items() if st == 'RetryOptions' and m == 'from' for tr, bb in lst if tr == 'From']
     if len(fb) != 1:
@@ -246,7 +246,7 @@ def body(chk):
     simple(chk, 'C05.From<RetryOptionsWithDeadline>', 'all values', fb[0], lambda ex, M: (wf(ex), [rd_v()])[1], claim_from)
 
     # 5. left_until_retry
-    b = prog.find('basic.rs:241:1: 241:30>::left_until_retry')
+    b = common.find_method(prog, 'RetryOptionsWithDeadline', 'left_until_retry')
 
     def claim_left(ex, M, kind, r):
         if kind != 'ok':
